@@ -158,6 +158,7 @@ func (sc *scen) doFree(mut string) *outcome {
 		if resp1.NewMerkleRoot != newRoot {
 			sc.failf("c08-host-root-differs", "free sectors %v of %d roots: host computed a different Merkle root", idxs, n)
 		}
+		w.runMid()
 		if a := abortOf(mut); a != "" {
 			return nil, a
 		}
@@ -233,6 +234,11 @@ func (sc *scen) doAppend(mut string) *outcome {
 	o.err = w.twoRound(proto4.RPCAppendSectorsID, &req, &resp1, func() (proto4.Object, string) {
 		if resp1.NewMerkleRoot != newRoot {
 			sc.failf("c08-host-root-differs", "append %d sectors (%d stored) to %d roots: host computed a different Merkle root", nsec, appended, len(roots))
+		}
+		if rerr == nil {
+			// (when the contract cannot pay, the host has already given up: it computes the
+			// revision before it reads the signature, and its handler is not waiting for us)
+			w.runMid()
 		}
 		if a := abortOf(mut); a != "" {
 			return nil, a
@@ -484,10 +490,13 @@ func (sc *scen) doReplenish(pool bool, mut string) *outcome {
 		if total.IsZero() {
 			return nil, "done"
 		}
+		rev, _, err := proto4.ReviseForReplenish(old, total)
+		if err == nil {
+			w.runMid() // (see append: an unpayable replenish is over on the host's side)
+		}
 		if a := abortOf(mut); a != "" {
 			return nil, a
 		}
-		rev, _, err := proto4.ReviseForReplenish(old, total)
 		if err != nil {
 			rev = manualRev(old, old.FileMerkleRoot)
 		}
